@@ -139,7 +139,7 @@ int main(int argc, char **argv)
       p.statics();
     p.explore(depth, depth >= 5 ? 3 : 2);
     partial_merge();
-    vr::note(std::string("payload ") + p.name + ": depth " + std::to_string(depth) + ", " + std::to_string(vr::S().stats["states"] - before) +
+    vr::note(std::string("payload ") + p.name + ": depth <= " + std::to_string(depth) + " requested, " + std::to_string(vr::S().stats["states"] - before) +
         " histories, " + std::to_string((int)(vr::now_s() - t0)) + " s");
   }
   if (only.empty())
